@@ -280,15 +280,16 @@ impl TexlangState for SimState {
     }
 
     fn post_macro_expansion_hook(
-        _token: token::Token,
+        token: token::Token,
         input: &vm::ExpansionInput<Self>,
-        _tex_macro: &texlang::texmacro::Macro,
-        _arguments: &[&[token::Token]],
-        _reversed_expansion: &[token::Token],
+        tex_macro: &texlang::texmacro::Macro,
+        arguments: &[&[token::Token]],
+        reversed_expansion: &[token::Token],
     ) {
-        // The repository's hook (tracingmacros::hook) prints to the real stdout, which is not
-        // a seam; the simulator replaces it by the step budget. `\tracingmacros` itself stays
-        // an ordinary integer parameter and is observed through `\the`.
+        // The repository's hook prints its trace with println! to the real stdout, which is not
+        // a seam: the process's stdout is pointed at /dev/null (process::init_output), so the
+        // hook runs - it must not panic - but what it prints is not observed. Then the budget.
+        tracingmacros::hook(token, input, tex_macro, arguments, reversed_expansion);
         let env = &input.state().env;
         let n = env.expansions.get() + 1;
         env.expansions.set(n);
